@@ -297,6 +297,7 @@ struct R {
     /// what the accepted calls should look like to the reader (oracle bookkeeping)
     accepted: Vec<OChunk>,
     last_tick: Option<i32>,
+    last_keyframe: Option<i32>,
     /// some call of the session panicked: the writer's state is undefined from then on
     panicked: bool,
 }
@@ -325,7 +326,7 @@ fn panic_tag(msg: &str) -> &'static str {
 
 impl R {
     fn new() -> R {
-        R { file: Shared::new(), writer: None, args: None, accepted: vec![], last_tick: None, panicked: false }
+        R { file: Shared::new(), writer: None, args: None, accepted: vec![], last_tick: None, last_keyframe: None, panicked: false }
     }
 
     fn snap(&mut self, tick: i32, items: Vec<(TypeId, u16, Vec<i32>)>, o: &mut Oracle) -> String {
@@ -344,10 +345,28 @@ impl R {
         keys.dedup();
         let distinct_keys = keys.len() == texts.len();
         let low = self.last_tick.map(|l| tick <= l).unwrap_or(false) || tick < 0;
+        let before = self.file.len();
         let res = catch(|| w.write_snap(tick, objs.iter().map(|(ob, id)| (ob, *id))));
         match res {
             Ok(Ok(())) => {
                 o.count("snap-ok");
+                // the documented mechanism, checked on the appended bytes: a full snapshot (flagged as key
+                // frame) when none was written yet or more than 250 ticks after the last one, a delta otherwise
+                let appended = self.file.bytes()[before..].to_vec();
+                let want_kf = match self.last_keyframe {
+                    None => true,
+                    Some(k) => tick as i64 - k as i64 > 250,
+                };
+                let marker = if appended[0] & 0x20 != 0 { 1 } else { 5 };
+                let flagged = appended[0] & 0x40 != 0;
+                let full = appended.get(marker).map(|b| b & 0x60 == 0x20).unwrap_or(false);
+                o.count(if full { "key-frame" } else { "delta-frame" });
+                if full != want_kf || flagged != want_kf {
+                    o.fail("C15/key-frame-rule", format!("tick {} last key frame {:?}: full snapshot {} flagged {}", tick, self.last_keyframe, full, flagged));
+                }
+                if full {
+                    self.last_keyframe = Some(tick);
+                }
                 if self.last_tick.map(|l| tick <= l).unwrap_or(false) {
                     o.fail("C15/non-increasing-tick-accepted", format!("tick {} after {:?}", tick, self.last_tick));
                 }
@@ -518,8 +537,11 @@ impl Runner for R {
                 match res {
                     Ok(Ok(w)) => {
                         self.writer = Some(w);
-                        self.args = Some(Args { net_version: nv, map_name: mn, sha, crc, server, length: len, timestamp: ts, map });
                         let b = self.file.bytes();
+                        if b != super::d_demo::doc_header(&nv, &mn, sha.as_deref(), crc, server, len, &ts, &map) {
+                            o.fail("C15/header-layout", format!("the {} bytes written by DemoWriter::new are not the documented layout of these fields", b.len()));
+                        }
+                        self.args = Some(Args { net_version: nv, map_name: mn, sha, crc, server, length: len, timestamp: ts, map });
                         format!("ok {} {}", b.len(), fnv_bytes(FNV_OFFSET, &b))
                     }
                     Ok(Err(e)) => format!("err {}", werr_name(&e)),
@@ -573,6 +595,27 @@ impl Runner for R {
                 }
                 self.check_roundtrip(&out, o);
                 read_text(&out)
+            }
+            ["mutall"] => {
+                if self.writer.is_none() {
+                    return "no-writer".to_string();
+                }
+                let f = self.file.bytes();
+                let mut try_file = |b: Vec<u8>, what: String, o: &mut Oracle| {
+                    if let Err(msg) = catch(|| read_text(&read_file(b))) {
+                        o.fail("C15/reader-panics-on-damaged-file", format!("{}: {}", what, msg));
+                    }
+                };
+                for i in 0..f.len() {
+                    for x in [0x01u8, 0x80, 0xff] {
+                        let mut b = f.clone();
+                        b[i] ^= x;
+                        try_file(b, format!("byte {} xor {:#x}", i, x), o);
+                    }
+                    try_file(f[..i].to_vec(), format!("truncated to {} bytes", i), o);
+                }
+                o.add("damaged_files_swept", 4 * f.len() as u64);
+                format!("n {}", 4 * f.len())
             }
             ["last"] => {
                 // the last snapshot the reader reports, in full
@@ -824,6 +867,18 @@ impl<'a> G<'a> {
         self.line("read".to_string());
         self.line("last".to_string());
         self.line("file".to_string());
+        // every single-byte corruption and truncation of short recordings (objects of ordinal and UUID
+        // types, key frame + deltas, messages): the reader must not panic
+        for k in 0..(if thorough { 12 } else { 2 }) {
+            self.line("new 302e36 646d31 none 1 s 0 32303236 -".to_string());
+            self.line(format!("snap {} o3.1:1,2,3,4,5;u22ca938d13803e2b9e7bd2558ea6be11.6:-5,0", 10 + k));
+            self.line(format!("snap {} o3.1:1,2,3,4,6;u22ca938d13803e2b9e7bd2558ea6be11.6:-5,0;u0dc77a02bfee3a53ac8e0bb0241bd722.6:{}", 11 + k, k));
+            self.line("motd 68656c6c6f".to_string());
+            self.line(format!("snap {} u0dc77a02bfee3a53ac8e0bb0241bd722.6:{};o4.2:10,20,1,0", 300 + k, k));
+            self.line("chat 0 -1 6869".to_string());
+            self.line(format!("snap {} -", 301 + k));
+            self.line("mutall".to_string());
+        }
         for _ in 0..n_hist {
             let n = 2 + self.rng.below(30) as usize;
             self.history(n, true);
